@@ -962,8 +962,35 @@ def derive(P, writer_kw=None):
 # canonical forms used when comparing model and code
 # ----------------------------------------------------------------------------------------------
 
+def sort_quant_tree(t):
+    """PDDL tree with the `?v - type` triples of every quantifier sorted: the simplifier (called by the writer) rebuilds a
+    quantifier from a Python set of variables, so their order is hash order (DESIGN 2.3)"""
+    if not isinstance(t, list):
+        return t
+    t = [sort_quant_tree(x) for x in t]
+    if len(t) == 3 and t[0] in ("exists", "forall") and isinstance(t[1], list) and len(t[1]) % 3 == 0 \
+            and all(isinstance(x, str) for x in t[1]) and all(t[1][i + 1] == "-" for i in range(0, len(t[1]), 3)):
+        triples = sorted(t[1][i:i + 3] for i in range(0, len(t[1]), 3))
+        t = [t[0], [x for tr in triples for x in tr], t[2]]
+    return t
+
+
+def sort_quant_expr(e):
+    """wire-format expression with quantifier variable lists sorted (same reason)"""
+    if not isinstance(e, list) or not e:
+        return e
+    if e[0] in ("exists", "forall") and len(e) == 3:
+        return [e[0], sorted(e[1]), sort_quant_expr(e[2])]
+    if e[0] in ("b", "i", "r", "o", "p", "v"):
+        return e
+    if e[0] == "fl":
+        return [e[0], e[1]] + [sort_quant_expr(a) for a in e[2:]]
+    return [e[0]] + [sort_quant_expr(a) for a in e[1:]]
+
+
 def canon_domain_tree(tree):
-    """the `:constants` section lists a Python set: sort its `name - type` triples"""
+    """the `:constants` section lists a Python set: sort its `name - type` triples; quantifier variables sorted"""
+    tree = sort_quant_tree(tree)
     out = []
     for sec in tree:
         if isinstance(sec, list) and sec and sec[0] == ":constants":
@@ -991,6 +1018,7 @@ def canon_read_problem(ps, const_names=None, sort_effects=False):
                 order.append((n, f))
                 names.add(n)
     ctx = Ctx(order)
+    ps = _map_problem_exprs(ps, sort_quant_expr)
     out = []
     for sec in ps:
         if isinstance(sec, list) and sec and sec[0] == "types":
@@ -1009,7 +1037,7 @@ def canon_read_problem(ps, const_names=None, sort_effects=False):
                     c = ctx.expr(e[4]).simplify()
                     if c.is_false():
                         continue
-                    ce = enc_expr(c)
+                    ce = sort_quant_expr(enc_expr(c))
                     # the Effect keeps only the quantified variables that still occur
                     used = sexp.dumps([e[2], e[3], ce])
                     vs = [v for v in e[5] if sexp.dumps(["v", v[0], v[1]]) in used]
